@@ -292,6 +292,10 @@ def rule_flow_roles(ctx):
                     for a in m["arms"]:
                         pk = hq.pat_key(a["pat"])
                         body = strip(a["body"])
+                        if pk == "Option::None" and sym.diverges(a["body"]):
+                            continue          # `match files.specification() { None => return Err(..), Some(Left(p)) => .., Some(Right(s)) => .. }`
+                        if pk.startswith("Option::Some(") and pk.endswith(")"):
+                            pk = pk[len("Option::Some("):-1]
                         rows.append((pk, _either_tag(fx, a), sorted(parser_types(body))))
                     detail.append(rows)
                     if sorted(rows) == sorted([("Either::Left(_)", "Left", ["Program"]), ("Either::Right(_)", "Right", ["Specification"])]):
